@@ -81,15 +81,16 @@ def handshake_companions(c, gen, cfg):
 
 # ------------------------------------------------------------------------------------------- stream
 def stream(c, tag, wsizes, rsizes, maxw, maxr, maxm, kinds=ALLKINDS, flipoffs="{0, 1043}", cutoffs="{1, 1043}",
-           inj='{"rev", "old", "junk"}', maxwire=3, stride=1, maxfaults=0, faultpass="{}", rfaultat="{}", reuse_violates=None):
+           inj='{"rev", "old", "junk"}', maxwire=3, stride=1, maxfaults=0, faultpass="{}", rfaultat="{}", reuse_violates=None,
+           base=0, archn=0, real_bases=(0,)):
     """reuse_violates: run the model with ReuseNonce = TRUE (nonce consumed only by a successful underlying write) and
     require TLC to violate that invariant (companion run, no replay)."""
     cfg = ("SPECIFICATION Spec\nCONSTANTS\n  WSizes = %s\n  RSizes = %s\n  MaxWrites = %d\n  MaxReads = %d\n  MaxManip = %d\n"
            "  Kinds = %s\n  FlipOffs <- FlipV\n  CutOffs <- CutV\n  InjKinds = %s\n  MaxWire = %d\n"
-           "  MaxFaults = %d\n  FaultPass = %s\n  RFaultAt = %s\n  ReuseNonce = %s\n"
+           "  MaxFaults = %d\n  FaultPass = %s\n  RFaultAt = %s\n  ReuseNonce = %s\n  Base = %d\n  ArchN = %d\n"
            "VIEW View\nINVARIANT %s\n%s") % (
         sset(wsizes), sset(rsizes), maxw, maxr, maxm, kinds, inj, maxwire, maxfaults, faultpass, rfaultat,
-        "TRUE" if reuse_violates else "FALSE", reuse_violates or "Inv",
+        "TRUE" if reuse_violates else "FALSE", base, archn, reuse_violates or "Inv",
         "" if reuse_violates else "PROPERTY TamperDetected\nACTION_CONSTRAINT Dump\n")
     gen = "---- MODULE MCgen ----\nEXTENDS MC_Stream\nFlipV == %s\nCutV == %s\n====\n" % (flipoffs, cutoffs)
     if reuse_violates:
@@ -100,9 +101,12 @@ def stream(c, tag, wsizes, rsizes, maxw, maxr, maxm, kinds=ALLKINDS, flipoffs="{
     r = c.tlc("conn", "MCgen.cfg", module="MCgen", files={"MCgen.tla": gen, "MCgen.cfg": cfg}, dump_to=dump, timeout=1500,
               tag="MC_Stream " + tag)
     need_ok(c, r, "MC_Stream " + tag)
-    g = c.gotest("conn", "TestStream", env=dict(CONN_DUMP=dump, CONN_TAG="st-" + tag, CONN_STRIDE=stride), timeout=1500,
-                 tag="stream " + tag)
-    c.absorb(g)
+    # the same behaviours on pairs that start at each of the real frame counters (VerifForkAt)
+    for rb in real_bases:
+        t = tag if rb == 0 else "%s@%d" % (tag, rb)
+        g = c.gotest("conn", "TestStream", env=dict(CONN_DUMP=dump, CONN_TAG="st-" + t, CONN_STRIDE=stride, CONN_BASE=rb), timeout=1500,
+                     tag="stream " + t)
+        c.absorb(g)
     os.remove(dump)
 
 
@@ -233,7 +237,8 @@ def run(c):
               "wrong direction key, low-order point, noise) replayed on real MakeSecretConnection calls, outcome (peer key / failure) of "
               "every session compared, then a data frame exchanged with the keys the specification says each side holds; "
               "stream: every transition of MC_Stream that ends in a Read (Write/Read sizes from {0,1,1023,1024,1025,2049}, Close, "
-              "and Flip/Cut at every byte offset, Drop, Dup, Swap, Replay, Inject of reverse-direction/old-session/noise frames, and faults of "
+              "and Flip/Cut at every byte offset, Drop, Dup, Swap, Replay, Inject of reverse-direction/old-session/noise frames, re-insertion of frames archived at the start of the same session on "
+              "pairs forked at frame counters 1, 3, 2^32-2, 2^32-1, 2^32, 2^63, 2^64-3, and faults of "
               "the underlying connection -- a frame write reporting an error with all / part / none of its bytes out, a read failing "
               "mid-frame -- after which the application keeps writing / reading) replayed "
               "on a real pair whose wire the driver owns: result and bytes of every Read compared; upgrade: every case of MC_Upgrade on the "
@@ -267,6 +272,17 @@ def run(c):
     # a frame cut in two and put together again from a duplicate IS the genuine frame (SecretConn!Norm): three manipulations
     stream(c, "splice3", [1], [1], 2, 3, 3, kinds='{"dup", "cutt", "cuth"}', flipoffs="{0}", cutoffs="{522}" if not th else "{1, 522, 1043}",
            inj='{"junk"}', maxwire=3)
+    # position independence: the session has already carried Base frames; the adversary re-inserts frames it recorded at the
+    # very beginning of the session (counters 0..2) next to replay / drop / dup / swap.  One dump (model Base = 3 stands for any
+    # counter >= 3) is replayed on pairs forked at real counters around 2^32, at 2^63 and just below 2^64 (where the code ends the
+    # session by panicking rather than wrap); Base = 1 is replayed as it is
+    B32 = 1 << 32
+    allb = [3, B32 - 2, B32 - 1, B32, 1 << 63, (1 << 64) - 3]
+    rot = [3, B32, 1 << 63, (1 << 64) - 3]
+    bases = allb if th else [B32 - 2, B32 - 1, rot[c.seed % len(rot)]]
+    ak = '{"archive", "replay", "drop", "swap", "dup"}'
+    stream(c, "archive", [1, 1025], [2049], 2, 5, 2, kinds=ak, inj='{"junk"}', base=3, archn=3, real_bases=bases)
+    stream(c, "archive-base1", [1, 1025], [1, 2049], 2, 4, 1, kinds=ak, inj='{"junk"}', base=1, archn=3, real_bases=[1])
     # faults of the underlying connection while the application keeps using the SecretConnection: a frame write that reports
     # an error although all / a prefix / none of the 1044 bytes went out (the nonce is consumed all the same), a read that fails
     # mid-frame; combined with the man in the middle dropping / duplicating / swapping / replaying frames
